@@ -100,3 +100,57 @@ PROPS["C16"] = {
     "trusted": ["Base/PathLex.v model of std::path"],
     "assumptions": ["std::path behaves as Base/PathLex.v (validated by the pathlex streams of C14/C15)", "paths are valid UTF-8"],
 }
+
+
+# ---------------------------------------------------------------------------------------------
+def c15_streams(tier, rng, ctx):
+    alpha1 = ["/", ".", ":", "a", "é", "語", "😀", "~"]
+    n1 = 5 if tier == "quick" else 6
+    unary = list(all_strings(alpha1, n1))
+    alpha2 = ["/", ".", "a", "é", ":", "😀"]
+    n2 = 3 if tier == "quick" else 4
+    short = list(all_strings(alpha2, n2))
+    pairs = [(x, y) for x in short for y in short]
+    nr = 20000 if tier == "quick" else 200000
+    runary = [random_string(rng, 20) for _ in range(nr)]
+    rpairs = [(random_string(rng, 12), random_string(rng, 6)) for _ in range(nr)]
+    # scheme-shaped inputs for trim_protocol
+    schemes = ["file://", "ftp://", "http://", "https://", "FILE://", "Http://", "hTTps://", "ftp:/", "file:", "//", "ſile://", "Kttp://", "İle://",
+               "httpx://", "https:///", "file://ftp://", "ftp://ftp://", "a//file://"]
+    proto = [s + t for s in schemes for t in ["", "a", "/a", "é/b", "//x", "HTTP://y"]] + \
+            [random_string(rng, 6) + rng.choice(schemes) + random_string(rng, 6) for _ in range(2000)]
+    U = unary + runary
+    P = pairs + rpairs
+    sts = []
+    un_fns = ["base", "first", "dir", "ext", "name", "trim_ext", "trim_first", "trim_last", "is_empty", "parse_paths",
+              "std_parent", "std_file_name", "std_extension", "components"]
+    for fn in un_fns:
+        sts.append(Stream("h-" + fn, "mirror", [line(fn, s) for s in U],
+                          exhaustive=True, rule="sys::%s vs mirror on all strings over %s up to length %d + random" % (fn, "".join(alpha1), n1)))
+    sts.append(Stream("h-trim_protocol", "mirror", [line("trim_protocol", s) for s in U + proto]))
+    for fn in ["trim_prefix", "trim_suffix", "has", "has_prefix", "has_suffix", "mash", "concat", "std_push", "std_eq", "std_starts_with"]:
+        sts.append(Stream("h-" + fn, "mirror", [line(fn, x, y) for x, y in P], exhaustive=True,
+                          rule="binary helper vs mirror on all pairs of strings up to length %d + random" % n2))
+    # the laws of the statement, evaluated on the real code
+    for law in ["law_ext", "law_name", "law_dir_base", "law_first", "law_last", "law_parse_paths"]:
+        kq = (lambda l: ("KF-C15-ext", "kf_ext_class\t" + l.split("\t", 1)[1])) if law == "law_ext" else None
+        sts.append(Stream(law, "spec", [line(law, s) for s in U], [line("true")] * len(U), known_query=kq,
+                          rule="the statement's law evaluated on the implementation"))
+    sts.append(Stream("law_trim_protocol", "spec", [line("law_trim_protocol", s) for s in U + proto], [line("true")] * len(U + proto)))
+    for law in ["law_trim_prefix", "law_trim_prefix_id", "law_trim_suffix", "law_trim_suffix_id", "law_has", "law_mash", "law_concat"]:
+        sts.append(Stream(law, "spec", [line(law, x, y) for x, y in P], [line("true")] * len(P)))
+    return sts
+
+
+def c15_known(l, impl_out, model_out):
+    return None
+
+
+PROPS["C15"] = {
+    "streams": c15_streams,
+    "rule": "exhaustive short strings / pairs over an alphabet with separators, dots, ':' and 2-, 3-, 4-byte characters, plus random longer ones; "
+            "every helper vs its mirror and every law of the statement on the real code; distinct = distinct argument tuples",
+    "trusted": ["Base/PathLex.v model of std::path (validated here by the std_* streams)",
+                "str::to_lowercase enters trim_protocol only through ASCII letters (stream lowercase-scan)"],
+    "assumptions": ["std::path and str primitives behave as Base/PathLex.v, Base/Str.v", "paths are valid UTF-8"],
+}
